@@ -98,9 +98,11 @@ def gc_history(sp, spelling="abs", L=3, first=None, ops=None):
             e.fos.put_symlink(cfg["link"][0], cfg["link"][1])
         ops = ops or ["append", "delete", "replace", "expire", "delsnap", "gc", "open_txn", "contended_commit"]
         h = H.History(sp, e, ops, checks=[H.check_state, H.check_gc])
-        # a fixed prefix so every history has something to collect around
-        h.ops = ["append"]
+        # a fixed prefix so every history has something to collect around: one transaction adding TWO files (so that a later file delete
+        # rewrites a manifest that keeps a survivor) and a plain append
+        h.ops = ["append2"]
         h.step(-2)
+        h.ops = ["append"]
         h.step(-1)
         h.ops = ops
         if first is not None:
@@ -116,6 +118,129 @@ def gc_history(sp, spelling="abs", L=3, first=None, ops=None):
         h.step(L)
         sp.note("history", list(h.trail))
         sp.reach("ran")
+
+
+def gc_inside_txn(sp, spelling="abs", second=False):
+    """A LIVE transaction at an arbitrary point of its progress (the '0..k open transactions' of the property, taken at storage-call
+    granularity): while handle A runs append_data + commit, a complete collection by another handle runs ATOMICALLY before A's k-th
+    storage call (k symbolic, grace period 0 or the default; in the two-collection variant the first one (grace 0) runs inside append_data,
+    the transaction then sits idle for 2 h, and the second one runs inside commit()).  Whatever the collection does, it must not delete a file that A has registered (in-flight marker written, transaction still
+    live) or that a retained snapshot references; if A's commit is acknowledged every file of its snapshot is present."""
+    import json as _json
+    from vf.oracles import reader
+    from vf.props.common import SCH
+    from vf.props.singleop import all_snapshots_readable, summarize
+    cfg = SPELLINGS[spelling]
+    with Env(sp, rig=cfg["rig"], root=cfg["root"], s3_prefix=cfg.get("prefix", "tbl"), clock="tick") as e:
+        w = e.world
+        if "link" in cfg:
+            e.fos.mkdir_durable(cfg["link"][1])
+            e.fos.put_symlink(cfg["link"][0], cfg["link"][1])
+        t = e.table(schema=SCH)
+        with t.new_transaction() as tx0:
+            tx0.append_data([{"a": 1}])
+            tx0.append_data([{"a": 2}])
+            tx0.commit()
+        t.append_records([{"a": 3}])
+        pre = summarize(e)
+        ta = e.table()
+        tg = e.table()
+        registered = set()   # table-relative targets of every marker the live transaction has written so far
+        state = {"live": True, "gcs": 0, "deleted_registered": [], "deleted_reachable": [], "gc_error": None}
+
+        def note_markers():
+            with w.inspect():
+                for p, raw in e.files().items():
+                    if p.startswith("metadata/inflight/") and p.endswith(".inflight"):
+                        try:
+                            registered.add(_json.loads(raw.decode())["file_path"].lstrip("/"))
+                        except Exception:  # noqa
+                            pass
+
+        def collect(grace):
+            note_markers()
+            with w.inspect():
+                before = e.files()
+            name, md = reader.current_metadata(before, loads=e.symjson.loads)
+            reach = reader.reachable(before, md)
+            cbs, w.callbacks = w.callbacks, []
+            try:
+                with e.as_actor("g"):
+                    tg.garbage_collect(grace_period_ms=grace)
+            except Exception as ex:  # noqa
+                state["gc_error"] = f"{type(ex).__name__}: {str(ex)[:80]}"
+            finally:
+                w.callbacks = cbs
+            with w.inspect():
+                after = e.files()
+            gone = set(before) - set(after)
+            state["gcs"] += 1
+            state["deleted_reachable"] += sorted(gone & reach)
+            if state["live"]:
+                state["deleted_registered"] += sorted(p for p in gone if p in registered)
+
+        k1 = sp.fresh_int("gc_before_call", 0, 400)
+        g1 = 0 if second else [0, 3600_000][sp.choose(2, name="grace1")]
+        fired = {"n": 0, "base": w.step, "phase": "write"}
+
+        def inject(w_, label, info, a):
+            if a != "a":
+                return
+            if fired["n"] == 0 and (not second or fired["phase"] == "write") and w_.step == fired["base"] + 1 + k1:
+                fired["n"] = 1
+                collect(g1)
+            elif second and fired["n"] == 1 and fired["phase"] == "commit" and w_.step == fired["base2"] + 1 + fired["k2"]:
+                fired["n"] = 2
+                collect(fired["g2"])
+        w.callbacks.append(inject)
+        acked = False
+        err = None
+        with e.as_actor("a"):
+            txa = ta.new_transaction()
+            txa.begin()
+            try:
+                txa.append_data([{"a": 100}])
+                w.clock.advance(2 * 3600_000)     # the transaction sat idle: its data file is older than any grace period used here
+                if second:
+                    # two collections: the first (grace 0) somewhere inside append_data, the second somewhere inside commit()
+                    if fired["n"] != 1:
+                        sp.assume(False)
+                    fired["phase"] = "commit"
+                    fired["base2"] = w.step
+                    fired["k2"] = sp.fresh_int("second_gc_before_commit_call", 0, 400)
+                    fired["g2"] = [0, 3600_000][sp.choose(2, name="grace2")]
+                txa.commit()
+                acked = True
+            except Exception as ex:  # noqa
+                from vf.symx import PathAbort
+                if isinstance(ex, PathAbort):
+                    raise
+                err = f"{type(ex).__name__}: {str(ex)[:80]}"
+                try:
+                    txa.rollback()
+                except Exception:  # noqa
+                    pass
+        state["live"] = False
+        w.callbacks.clear()
+        sp.note("collections", state["gcs"])
+        sp.note("outcome", "ok" if acked else err)
+        sp.reach("ran")
+        tag = f"gc-inside-txn:{spelling}"
+        sp.require(not state["deleted_reachable"], f"{tag}: a collection (grace {g1} ms) running before the transaction's storage call #{k1} deleted files "
+                   f"referenced by a retained snapshot: {state['deleted_reachable']}", {"sig": "gc:deleted-reachable"})
+        sp.require(not state["deleted_registered"], f"{tag}: a collection running inside a live transaction deleted files the transaction had registered: "
+                   f"{state['deleted_registered']}", {"sig": "gc:deleted-registered-by-live-transaction"})
+        try:
+            obs = summarize(e)
+            bad = all_snapshots_readable(obs)
+        except reader.Unreadable as ex:
+            bad = str(ex)
+            obs = None
+        sp.require(bad is None, f"{tag}: after a collection inside the transaction (commit {'acknowledged' if acked else 'raised ' + str(err)}) a retained "
+                   f"snapshot is not readable: {bad}", {"sig": "gc:snapshot-unreadable-after-collection-inside-transaction"})
+        if obs is not None:
+            exp = sorted(pre.rows + [100]) if acked else sorted(pre.rows)
+            sp.require(obs.rows == exp, f"{tag}: commit {'acknowledged' if acked else 'raised'}, rows {obs.rows}, expected {exp}", {"sig": "gc-inside-txn:rows"})
 
 
 def obligations(tier):
@@ -139,4 +264,12 @@ def obligations(tier):
                           {"spelling": s, "L": L, "first": f, "_must_reach": ["ran"], "_sample_every": 25}, timeout=T * (1 if tier == "quick" else 3),
                           bounds=f"location spelling '{s}' ({SPELLINGS[s]}), 2 appends + {L} solver-chosen operations"
                                  f"{' starting with ' + f if f else ''} + a final collection", weight=L + 2))
+    for sname in (["abs", "s3_p"] if tier == "quick" else ["abs", "rel_data", "symlink", "s3_p", "s3_data"]):
+        for second in (False, True):
+            if tier == "quick" and second and sname != "s3_p":
+                continue
+            obs.append(Ob(f"c.gc_inside_txn.{sname}{'.two' if second else ''}", "vf.props.c05:gc_inside_txn",
+                          {"spelling": sname, "second": second, "_must_reach": ["ran"], "_sample_every": 40}, timeout=T * (1 if tier == "quick" else 3),
+                          bounds=f"location '{sname}': a full collection (grace 0 / 1 h) atomically before every storage call of a live transaction's "
+                                 f"append_data + commit{' - two collections: one inside append_data, 2 h idle, one inside commit()' if second else ''}", weight=5))
     return obs
